@@ -89,6 +89,16 @@ def grid_storage_is_contiguous(chk):
     return True
 
 
+def all_data_is_storage(chk):
+    """Grid.getAllData() returns the grid's own array (self._f), not a copy: a store through it changes the grid"""
+    try:
+        ga = chk.func(U.GRID, "Grid.getAllData")
+    except AnalysisError:
+        return False
+    rets = [n for n in ast.walk(ga) if isinstance(n, ast.Return)]
+    return len(rets) == 1 and src(rets[0].value) == "self._f"
+
+
 def transforms(chk):
     mod = chk.mod(U.POISSON)
     imports = _imports(mod.tree)
@@ -155,6 +165,10 @@ def transforms(chk):
                         elif src(line) != src(tgt) and isinstance(line, ast.Call) and isinstance(tgt, ast.Call) and \
                                 src(line.func) == src(tgt.func) == f"{arg}.get1DSlice":
                             shape = "mismatch"
+                elif whole and not loops:
+                    # one batched call over the local block: every line along the last axis is transformed (axis=-1, the default)
+                    if same_expr(line, f"{arg}.getAllData()") and same_expr(tgt, f"{arg}.getAllData()") and not env.amb:
+                        shape = "block" if all_data_is_storage(chk) else "block?"
                 elif whole and len(loops) == 1 and isinstance(loops[0].target, ast.Name):
                     v_ = loops[0].target.id
                     it = env.x(loops[0].iter)
@@ -170,7 +184,7 @@ def transforms(chk):
             elif extra:
                 bad = (f"`{f}` is called with the options {extra}: the plain transform (default normalisation, along the line) is what makes "
                        "ifft(fft(x)) = x and puts mode m of np.fft.fftfreq at position m of the output")
-            elif o is not None and o[-1] != 1 and shape in ("slices", "rows"):
+            elif o is not None and o[-1] != 1 and shape in ("slices", "rows", "block"):
                 bad = (f"the asserted layout {o} does not have theta as its last (contiguous) axis: the lines that are transformed are not "
                        "poloidal lines")
             elif shape == "swapped":
@@ -182,10 +196,12 @@ def transforms(chk):
                                                                     isinstance(n.ctx, ast.Load) for n in ast.walk(fn)))):
                 bad = (f"the result of `{f}` is never written back to the grid (overwrite_x only permits, it does not guarantee, "
                        "in-place operation): the grid keeps the untransformed data")
-            elif shape in ("slices", "rows") and o is not None and o[-1] == 1 and not unknown_opts:
+            elif shape in ("slices", "rows", "block") and o is not None and o[-1] == 1 and not unknown_opts:
                 ok = True
                 why = (f"every (r,z) line of the asserted layout {o} is replaced by its {f} along theta (last axis), standard mode order" +
-                       (" - lines taken as the rows of the contiguous local array" if shape == "rows" else ""))
+                       (" - lines taken as the rows of the contiguous local array" if shape == "rows" else
+                        " - one batched transform along the last axis of the local block, written back into the grid's storage"
+                        if shape == "block" else ""))
         chk.pat("F5-transform-pair", fn, f"{m}: {f} along theta, in place", ok, why, bad, file=U.POISSON, func=q)
     # the names the calls go through
     resolved = all(cs for _, cs in results)
@@ -255,6 +271,10 @@ def mode_numbers(chk):
     mods = [n for n in ast.walk(fn) if isinstance(n, (ast.Assign, ast.AugAssign)) and any(
         isinstance(t, ast.Subscript) and src(t.value) in ("self._mVals", base)
         for t in (n.targets if isinstance(n, ast.Assign) else [n.target]))]
+    # element-by-element raising of the whole table to a power (recognised by the mode-table analysis of C14) keeps the numbering
+    from .C14 import mode_tables
+    powered = {id(h[2]) for h in mode_tables(chk).hist.get("self._mVals", []) if h[1] is not None}
+    mods = [n for n in mods if id(n) not in powered]
     if not mods:
         ex = env.x(v, use=defs[0])
         res = _numeric_modes(src(ex)) if not env.amb else None
@@ -305,6 +325,9 @@ def mode_numbers(chk):
     chk.ob("F5-mode-numbers", defs[0], src(defs[0]), ok, why, file=U.POISSON, func=q)
 
 
+CHI = sp.Symbol("chi")
+
+
 def lam(e, env=None, fn=None, at=None):
     """lambda r: <expr>  ->  sympy expression over r and uninterpreted n0(r), Te(r), g(r)=n0'/n0, B"""
     if isinstance(e, ast.Name) and env is not None:
@@ -328,6 +351,8 @@ def lam(e, env=None, fn=None, at=None):
                 return r
             if x.id == "B":
                 return Bs
+            if x.id == "chi":
+                return CHI
             raise KeyError(x.id)
         if isinstance(x, ast.Constant) and isinstance(x.value, (int, float)) and not isinstance(x.value, bool):
             return sp.nsimplify(x.value)
@@ -388,6 +413,64 @@ def chi_values(node, stop):
     return vals
 
 
+def _uses_m0_operator(chk):
+    """does any method of the two solver classes mention self._stiffness0?"""
+    mod = chk.mod(U.POISSON)
+    return any(isinstance(n, ast.Attribute) and n.attr == "_stiffness0" for c in mod.tree.body
+               if isinstance(c, ast.ClassDef) and c.name in (DES, QN) for n in ast.walk(c))
+
+
+def m0_generic(chk, fn, env, stiff):
+    """no separate m=0 operator: the mode m=0 is solved with the operator of every mode, (blocks) - 0 * k2.  Its reaction term is
+    (coefficient of the C block) x rFactor, which must be (1 - chi) B^2/Te for adiabatic electrons and 0 for kinetic ones"""
+    q = f"{QN}.__init__"
+    _, calls, formals = base_init_calls(chk)
+    r = sp.Symbol("r", positive=True)
+    Tef, Bs = sp.Function("Te"), sp.Symbol("B")
+    cblock = stiff.get("self._PhiPsi", 0)
+    seen = set()
+    for c in calls:
+        st = _stmt_of(c)
+        br = electron_branch(c, fn)
+        kw = bound_arguments(c, formals)
+        if br is None or kw is None:
+            chk.ob("F5-m0-convention", c, "m=0 operator (no separate operator)", None, "call of DiffEqSolver.__init__ not resolved",
+                   file=U.POISSON, func=q)
+            continue
+        try:
+            rf = lam(kw["rFactor"], env, fn, st)[0] if "rFactor" in kw else sp.Integer(0)
+        except KeyError as e:
+            chk.ob("F5-m0-convention", c, "m=0 operator (no separate operator)", None, f"rFactor not recognised ({e})", file=U.POISSON, func=q)
+            continue
+        cases = []
+        if br in ("kinetic", "both"):
+            cases.append(("kinetic electrons", None, sp.Integer(0)))
+        if br in ("adiabatic", "both"):
+            vals = chi_values(st, fn)
+            if vals is None:
+                chk.ob("F5-m0-convention", c, "m=0 operator (no separate operator)", None, "tests on chi not recognised", file=U.POISSON, func=q)
+                continue
+            cases += [(f"chi={v_}", v_, (1 - v_) * Bs * Bs / Tef(r)) for v_ in sorted(vals)]
+        for tag, v_, want in cases:
+            got = cblock * (rf.subs(CHI, v_) if v_ is not None else rf)
+            if got.has(CHI):
+                chk.ob("F5-m0-convention", c, f"m=0 operator for {tag}: the operator of every mode", None,
+                       "chi used outside the adiabatic branch", file=U.POISSON, func=q)
+                continue
+            ok = alg_equal(got, want)
+            seen.add(tag)
+            chk.ob("F5-m0-convention", c, f"m=0 operator for {tag}: the operator of every mode", ok,
+                   f"no separate m=0 operator; the reaction term of the common operator is {sp.simplify(got)} = (1 - chi) B^2/Te for {tag}" if ok else
+                   f"for {tag} the mode m=0 is solved with the operator of every mode, whose reaction term is {sp.simplify(got)}; the "
+                   f"m=0 equation needs {want} (the flux-surface average chi*<phi> cancels the adiabatic response of m=0 only)",
+                   file=U.POISSON, func=q)
+    raises = any(isinstance(n, ast.Raise) and "chi" in src(parent(n) if isinstance(parent(n), ast.If) else n) for n in ast.walk(fn)) or \
+        any(isinstance(n, ast.Assert) and "chi" in src(n.test) and ("0" in src(n.test) and "1" in src(n.test)) for n in ast.walk(fn))
+    chk.pat("F5-m0-convention", fn, "chi in {0, 1} and kinetic electrons all define the m=0 operator; other chi refused",
+            {"kinetic electrons", "chi=0", "chi=1"} <= seen and raises,
+            f"cases covered: {sorted(seen)}; refusal of other chi: {raises}", None, file=U.POISSON, func=q, nontrivial=False)
+
+
 def m0_operator(chk):
     """the m=0 operator of the quasi-neutrality solver is the assembled operator, minus the adiabatic block for chi=1"""
     from .C14 import operator_blocks, _sym, BLOCKS
@@ -395,6 +478,9 @@ def m0_operator(chk):
     env = env_of(chk, fn)
     stiff = operator_blocks(chk)
     defs = [n for n in ast.walk(fn) if isinstance(n, ast.Assign) and src(n.targets[0]) == "self._stiffness0"]
+    if stiff is not None and not defs and not _uses_m0_operator(chk):
+        m0_generic(chk, fn, env, stiff)
+        return
     if stiff is None or not defs:
         chk.ob("F5-m0-convention", fn, "chi -> m=0 operator", None, "definition of the theta-independent operator / of self._stiffness0 not found",
                file=U.POISSON, func=f"{QN}.__init__")
@@ -521,16 +607,51 @@ def _literal_set(e):
     return None
 
 
-def qn_coefficients(chk):
+def base_init_calls(chk):
+    """(view of QuasiNeutralitySolver.__init__, its calls of DiffEqSolver.__init__, the formal parameters of the latter)"""
     fn = flat_view(chk, U.POISSON, QN, "__init__")
-    env = env_of(chk, fn)
-    q = f"{QN}.__init__"
     try:
         formals = [a.arg for a in chk.func(U.POISSON, f"{DES}.__init__").args.args]
     except AnalysisError:
         formals = DES_INIT_PARAMS
     calls = [c for c in ast.walk(fn) if isinstance(c, ast.Call) and src(c.func) == f"{DES}.__init__"]
     calls += [c for c in ast.walk(fn) if isinstance(c, ast.Call) and src(c.func).replace(" ", "") in ("super().__init__", f"super({QN},self).__init__")]
+    return fn, calls, formals
+
+
+def bound_arguments(c, formals):
+    """parameter -> argument of a DiffEqSolver.__init__ call, None when passed through * / **"""
+    fm = formals if src(c.func) == f"{DES}.__init__" else formals[1:]
+    if any(isinstance(a, ast.Starred) for a in c.args) or any(k.arg is None for k in c.keywords):
+        return None
+    kw = dict(zip(fm, c.args))
+    kw.update({k.arg: k.value for k in c.keywords})
+    return kw
+
+
+def signature_defaults(chk):
+    """coefficient parameter -> default value (function of r) in DiffEqSolver.__init__'s signature; None when not recognised"""
+    out = {}
+    try:
+        fn = chk.func(U.POISSON, f"{DES}.__init__")
+    except AnalysisError:
+        return out
+    a = fn.args
+    pos = dict(zip([x.arg for x in a.args][len(a.args) - len(a.defaults):], a.defaults))
+    pos.update({k.arg: d for k, d in zip(a.kwonlyargs, a.kw_defaults) if d is not None})
+    for name in ("ddrFactor", "drFactor", "rFactor", "ddThetaFactor", "rhoFactor"):
+        if name in pos:
+            try:
+                out[name] = lam(pos[name])[0]
+            except KeyError:
+                out[name] = None
+    return out
+
+
+def qn_coefficients(chk):
+    fn, calls, formals = base_init_calls(chk)
+    env = env_of(chk, fn)
+    q = f"{QN}.__init__"
     if len(calls) not in (1, 2):
         raise AnalysisError("C15: expected the DiffEqSolver.__init__ call(s) in QuasiNeutralitySolver.__init__")
     r = sp.Symbol("r", positive=True)
@@ -542,18 +663,15 @@ def qn_coefficients(chk):
             chk.ob("F5-qn-coefficients", c, "electron model of this DiffEqSolver.__init__ call", None,
                    "the call is not inside a recognised branch of the adiabaticElectrons test", file=U.POISSON, func=q)
             continue
-        explicit_self = src(c.func) == f"{DES}.__init__"
-        fm = formals if explicit_self else formals[1:]
-        if any(isinstance(a, ast.Starred) for a in c.args) or any(k.arg is None for k in c.keywords):
+        kw = bound_arguments(c, formals)
+        if kw is None:
             chk.ob("F5-qn-coefficients", c, "arguments of DiffEqSolver.__init__", None, "arguments passed through * / **: not resolved",
                    file=U.POISSON, func=q)
             continue
-        kw = dict(zip(fm, c.args))
-        kw.update({k.arg: k.value for k in c.keywords})
         adiabatic = br == "adiabatic"
         tag = "adiabatic electrons" if adiabatic else "kinetic electrons" if br == "kinetic" else "both electron models"
         spec = {"drFactor": -(1 / r + gfun(r)), "ddThetaFactor": -1 / r ** 2, "rhoFactor": Bs * Bs / n0f(r)}
-        defaults = {"ddrFactor": sp.Integer(-1), "rFactor": sp.Integer(0)}
+        defaults = signature_defaults(chk)
         if adiabatic:
             spec["rFactor"] = Bs * Bs / Tef(r)
         elif br == "kinetic":
@@ -561,17 +679,42 @@ def qn_coefficients(chk):
         spec["ddrFactor"] = sp.Integer(-1)
         for name, want in spec.items():
             if name not in kw:
-                if name in defaults:
-                    if alg_equal(defaults[name], want):
-                        if name == "rFactor":
-                            chk.ob("F5-qn-coefficients", c, f"{name} [{tag}]", True, "kinetic electrons: no adiabatic response term (default 0)",
-                                   file=U.POISSON, func=q)
-                        continue
+                if defaults.get(name) is None:
+                    chk.ob("F5-qn-coefficients", c, f"{name} [{tag}]", None,
+                           f"coefficient `{name}` is not passed and DiffEqSolver's default for it is not a recognised function of r",
+                           file=U.POISSON, func=q)
+                    continue
+                if alg_equal(defaults[name], want):
+                    chk.ob("F5-qn-coefficients", c, f"{name} [{tag}]", True,
+                           "kinetic electrons: no adiabatic response term (default 0)" if name == "rFactor" else
+                           f"not passed: DiffEqSolver's default {defaults[name]} is the coefficient needed", file=U.POISSON, func=q)
+                    continue
                 chk.ob("F5-qn-coefficients", c, f"{name} [{tag}]", False,
-                       f"coefficient `{name}` is not passed: DiffEqSolver's default is used instead of {want}", file=U.POISSON, func=q)
+                       f"coefficient `{name}` is not passed: DiffEqSolver's default {defaults[name]} is used instead of {want}",
+                       file=U.POISSON, func=q)
                 continue
             try:
                 got, *_ = lam(kw[name], env, fn, st)
+                if got.has(CHI):
+                    # the convention parameter chi in {0, 1} appears in a coefficient: judged for each value it can have here
+                    vals = chi_values(st, fn) if adiabatic else None
+                    if not vals:
+                        chk.ob("F5-qn-coefficients", kw[name], f"{name} [{tag}]", None,
+                               f"{name} is {got}: depends on chi under tests on chi that are not recognised", file=U.POISSON, func=q)
+                        continue
+                    wrong = [v_ for v_ in sorted(vals) if not alg_equal(got.subs(CHI, v_), want)]
+                    ok = not wrong
+                    why = f"{name} = {want} for chi in {sorted(vals)}"
+                    if wrong:
+                        v_ = wrong[0]
+                        why = (f"{name} is {got}: for chi={v_} the coefficient handed to DiffEqSolver is {sp.simplify(got.subs(CHI, v_))} instead "
+                               f"of {want}.")
+                        if name == "rFactor":
+                            why += (" The matrices assembled from it serve every poloidal mode, but the flux-surface average chi*<phi>_theta "
+                                    "only cancels the adiabatic response phi/Te of the mode m=0: with chi folded into the coefficient every "
+                                    "mode m != 0 loses the 1/Te term (the m=0 convention belongs to the m=0 operator alone)")
+                    chk.ob("F5-qn-coefficients", kw[name], f"{name} [{tag}]", ok, why, file=U.POISSON, func=q)
+                    continue
                 ok = alg_equal(got, want)
                 chk.ob("F5-qn-coefficients", kw[name], f"{name} [{tag}]", ok, f"{name} = {want}" if ok else
                        f"{name} is {got}, the quasi-neutrality equation needs {want}" +
@@ -618,7 +761,14 @@ def m0_selection(chk):
     """QuasiNeutralitySolver.solveEquation: the m=0 operator for the mode whose (squared) number is 0, the generic one otherwise"""
     q = f"{QN}.solveEquation"
     se, lp, li, gi = mode_loop(chk, QN, "solveEquation")
+    if lp is not None and not _uses_m0_operator(chk):
+        chk.ob("F5-m0-convention", lp, "m=0 test uses the global mode index", True,
+               "no separate m=0 operator exists: every mode, m=0 included, is solved with the common operator (whether that operator is "
+               "right for m=0 is judged where the coefficients are passed)", file=U.POISSON, func=q)
+        return
     ok, bad = False, None
+    from .C14 import mode_tables
+    mt = mode_tables(chk)
     if lp is not None:
         env = env_of(chk, se)
         for n in ast.walk(lp):
@@ -631,7 +781,16 @@ def m0_selection(chk):
             if not ("0" in sides or "0.0" in sides):
                 continue
             other = [s_ for s_ in sides if s_ not in ("0", "0.0")]
-            if len(other) != 1 or not other[0].startswith("self._mVals["):
+            if len(other) == 1 and other[0] == gi.replace(" ", ""):
+                # position 0 of the transform's output is the mode m = 0 (the numbering is judged by F5-mode-numbers)
+                zero_branch, rest = (n.body, n.orelse) if isinstance(t.ops[0], ast.Eq) else (n.orelse, n.body)
+                if any("self._stiffness0" in src(env.x(e_, use=x)) for s_ in zero_branch for x in ast.walk(s_) if isinstance(x, ast.stmt)
+                       for e_ in _own_exprs(x)) and not any("self._stiffness0" in src(s_) for s_ in rest):
+                    ok = True
+                continue
+            # any table that holds a positive power of the mode number is zero exactly for m = 0
+            tab0 = other[0].split("[")[0] if len(other) == 1 else None
+            if tab0 is None or "[" not in other[0] or tab0 not in mt.tables() or not mt.final(tab0):
                 continue
             zero_branch, rest = (n.body, n.orelse) if isinstance(t.ops[0], ast.Eq) else (n.orelse, n.body)
 
@@ -652,7 +811,7 @@ def m0_selection(chk):
                             for e_ in _own_exprs(x):
                                 out.append("self._k2PhiPsi" in src(env.x(e_, use=x)))
                 return any(out)
-            if other[0] != f"self._mVals[{gi}]".replace(" ", ""):
+            if other[0] != f"{tab0}[{gi}]".replace(" ", ""):
                 bad = (f"the m=0 operator is selected by `{other[0]}`, not by the mode number of the global mode index `{gi}`: on a process "
                        "whose block does not start at mode 0 the wrong mode gets the m=0 operator")
             elif uses0(zero_branch) and not uses0(rest) and usesK(rest):
@@ -695,8 +854,13 @@ def equilibrium_cancellation(chk):
             tab = src(base)
             fills = [x for x in ast.walk(init) if named(x, "feq_vector") and x.args and src(envi.x(x.args[0], use=_stmt_of(x))) == tab]
             if tab.startswith("self.") and len(fills) == 1 and src(w) == "self._quad_coeffs":
-                fa = fills[0].args
-                pts = [src(envi.x(a, use=_stmt_of(fills[0]))).replace(" ", "") for a in fa[1:3]] if len(fa) >= 3 else []
+                try:
+                    ff = [a.arg for a in chk.func(U.INITF, "feq_vector").args.args]
+                except AnalysisError:
+                    ff = ["surface", "r_vec", "vPar"]
+                fb = dict(zip(ff, fills[0].args))
+                fb.update({k.arg: k.value for k in fills[0].keywords if k.arg})
+                pts = [src(envi.x(fb[p_], use=_stmt_of(fills[0]))).replace(" ", "") for p_ in ff[1:3]] if all(p_ in fb for p_ in ff[1:3]) else []
                 if pts == ["eta_grid[0]", "eta_grid[3]"]:
                     ok = True
                 elif len(pts) == 2 and all(p_.startswith("eta_grid[") and p_.endswith("]") for p_ in pts):
@@ -731,6 +895,37 @@ def equilibrium_cancellation(chk):
             "density of the equilibrium is exactly zero", bad, file=U.POISSON, func=q)
 
 
+PIPELINE = {"getPerturbedRho": DF, "getRho": DF, "getModes": QN, "solveEquation": QN, "findPotential": QN}
+
+
+def pipeline_args(chk, call, m):
+    """the actual arguments of a pipeline call in the order of the parameters of the method it runs (positional and keyword
+    arguments bound by the callee's signature); None when they cannot be bound"""
+    from .C14 import _method
+    owner, fn = _method(chk.mod(U.POISSON), PIPELINE[m], m)
+    if fn is None:
+        return None
+    a = fn.args
+    if a.vararg or a.kwarg or a.posonlyargs:
+        return None
+    params = [x.arg for x in a.args]
+    if not any(src(d) == "staticmethod" for d in fn.decorator_list):
+        params = params[1:]
+    if any(isinstance(x, ast.Starred) for x in call.args) or any(k.arg is None for k in call.keywords) or len(call.args) > len(params):
+        return None
+    got = dict(zip(params, call.args))
+    for k in call.keywords:
+        if k.arg not in params or k.arg in got:
+            return None
+        got[k.arg] = k.value
+    out = []
+    for p_ in params:
+        if p_ not in got:
+            break               # trailing parameters with defaults
+        out.append(got[p_])
+    return out if len(out) == len(got) else None
+
+
 def spectral_typestate(chk):
     """pipeline order in the driver: rho real -> getModes -> solve -> findPotential -> phi real before it is used"""
     fn = flat_function(chk, U.DRIVER, "main")
@@ -759,11 +954,22 @@ def spectral_typestate(chk):
                 before = dict(st)
                 walk(s.body, st, depth)
                 ok = before == st
-                if not ok and any(v not in decided for v in list(before.values()) + list(st.values())):
-                    ok = None
-                chk.ob("S-spectral-state", s, "time loop: spectral state of rho/phi", ok,
-                       "rho and phi are in the same representation at the start and at the end of an iteration" if ok else
-                       f"representation changes across an iteration: {before} -> {st}", file=U.DRIVER, func="main")
+                if not ok:
+                    # the second iteration starts from the state the first one leaves: its uses are judged in that state (a use in
+                    # the wrong representation is reported there); the loop itself is periodic if a further iteration changes nothing
+                    after1 = dict(st)
+                    walk(s.body, st, depth)
+                    ok = True if (after1 == st and all(v in decided for v in st.values())) else None
+                    for k_ in st:
+                        if st[k_] != after1[k_] or st[k_] != before[k_] and st[k_] not in decided:
+                            st[k_] = "mixed"
+                    chk.ob("S-spectral-state", s, "time loop: spectral state of rho/phi", ok,
+                           f"the representation of rho / phi at the start of an iteration is {before} for the first and {after1} for every "
+                           "later one; every use inside the loop was judged in both" if ok else
+                           f"representation changes across iterations: {before} -> {after1} -> {st}", file=U.DRIVER, func="main")
+                else:
+                    chk.ob("S-spectral-state", s, "time loop: spectral state of rho/phi", True,
+                           "rho and phi are in the same representation at the start and at the end of an iteration", file=U.DRIVER, func="main")
             elif isinstance(s, (ast.With, ast.Try)):
                 walk(s.body, st, depth)
                 for h in getattr(s, "handlers", []) or []:
@@ -792,7 +998,22 @@ def spectral_typestate(chk):
                     if not isinstance(c.func, ast.Attribute):
                         continue
                     m = c.func.attr
-                    args = [a.id for a in c.args if isinstance(a, ast.Name)]
+                    if m in PIPELINE:
+                        # the grids of a pipeline call, in the order of the callee's parameters (positional or keyword arguments)
+                        bound = pipeline_args(chk, c, m)
+                        if bound is None:
+                            mentioned = {n.id for n in ast.walk(c) if isinstance(n, ast.Name) and n.id in st}
+                            for g_ in mentioned:
+                                st[g_] = "unknown"
+                            chk.ob("S-spectral-state", c, src(c)[:80], None, f"the arguments of `{m}` could not be bound to its parameters",
+                                   file=U.DRIVER, func="main")
+                            continue
+                        args = [a.id for a in bound if isinstance(a, ast.Name)]
+                        if len(args) != len(bound):
+                            args = []
+                    else:
+                        args = [a.id for a in c.args if isinstance(a, ast.Name)] + \
+                            [k.value.id for k in c.keywords if isinstance(k.value, ast.Name)]
                     if m in ("getPerturbedRho", "getRho") and len(args) >= 2:
                         st[args[1]] = "real"
                         kind[args[1]] = m
